@@ -173,7 +173,7 @@ CHECKS = {
         "level": "other",
         "ref": "DESIGN.md §5 C13",
         "technique": 'argument provenance of span endpoints and token values over MIR (LR, lexer, GLR), LR/GLR sibling agreement, byte-unit rule, validation of generated recognisers',
-        "text": "Decides where span endpoints come from on shift/reduce/empty-reduce (LR and GLR), that the two parsers anchor empty spans alike, the lexer's token value/span/input slice, whitespace skipping, Tree::build span hand-off, that position_after measures in bytes with `\\n` as the only line terminator (line, column after/without a newline, offset), and on generated code that recognisers return input slices and anchor regexes as a whole (two known findings). Partial: not ordering of spans for concrete inputs.",
+        "text": "Decides where span endpoints come from on shift/reduce/empty-reduce (LR and GLR), that the two parsers anchor empty spans alike, the lexer's token value/span/input slice, whitespace skipping, Tree::build span hand-off, that the layout sub-parser's span does not stay in the content context (save/restore bracket on every path, by receiver epoch), that position_after measures in bytes with `\\n` as the only line terminator (line, column after/without a newline, offset), and on generated code that recognisers return input slices and anchor regexes as a whole (two known findings). Partial: not ordering of spans for concrete inputs.",
         "note": 'Trusted: rustc MIR; Context implementations are trivial setters/getters.',
     },
     "C14": {
@@ -189,7 +189,7 @@ CHECKS = {
         "level": "other",
         "ref": "DESIGN.md §5 C03",
         "technique": 'keying/provenance rules and guard rules over MIR by path simulation (GLR shifter, reducer, frontier, forest); thin claim',
-        "text": "THIN: decides the structural clauses with an oracle in the definition of a GSS / right-nulled table: shifted heads keyed by (state, position), sub-frontiers keyed consistently, right-nulled lengths, SPPF node label on child replacement, accept/forest collection, index past the end, and the registration table of the reducer against the RNGLR rules (new node: its shifts, reductions and accept; new edge on an old node: only reductions of length > 0 over that edge), exactly one solution extended by a right-nulled path, and that nothing but the documented strategies takes lookaheads out of the candidate list. The index decoding of solutions()/get_tree() is declined: no independent oracle.",
+        "text": "THIN: decides the structural clauses with an oracle in the definition of a GSS / right-nulled table: shifted heads keyed by (state, position), sub-frontiers keyed consistently, right-nulled lengths, SPPF node label on child replacement, accept/forest collection, index past the end, and the registration table of the reducer against the RNGLR rules (new node: its shifts, reductions and accept; new edge on an old node: only reductions of length > 0 over that edge), a reduction path merged into (or dropped for) a stored solution only under the same production and identity of the children they share, and that nothing but the documented strategies takes lookaheads out of the candidate list. The index decoding of solutions()/get_tree() is declined: no independent oracle.",
         "note": 'Trusted: rustc MIR; Scott & Johnstone (RNGLR) for the registration table. That the worklist as a whole terminates with the complete forest is not decided.',
     },
     "C06": {
@@ -205,7 +205,7 @@ CHECKS = {
         "level": "other",
         "ref": "DESIGN.md §5 C07",
         "technique": 'sibling agreement: decisions of the LR and GLR runtimes reduced to common terms/tables from MIR and compared',
-        "text": 'Every decision both runtimes take (empty-span anchor, shift geometry, reduction spans, lexical filtering, STOP synthesis, error construction, layout-parser construction and the layout-state bracket of the token fetch, replay protocol, table selection, right-nulled table) is extracted from both implementations and compared; a disagreement means some input is treated differently. Partial: not tree equality for concrete grammars.',
+        "text": 'Every decision both runtimes take (empty-span anchor, shift geometry, reduction spans, lexical filtering, STOP synthesis, error construction, layout-parser construction and the layout-state and span brackets of the token fetch, replay protocol, table selection, right-nulled table) is extracted from both implementations and compared; a disagreement means some input is treated differently. Partial: not tree equality for concrete grammars.',
         "note": 'Trusted: rustc MIR of both generic runtimes.',
     },
     "C01": {
